@@ -47,6 +47,7 @@ class Outcome:
         self.nontrivial = 0
         self.solver_time = 0.0
         self.extra = {}
+        self.not_replayed = []    # failing harnesses left unreplayed after the cap was reached
 
 
 def write_replay(pid, harness, crate, features, rp):
@@ -57,6 +58,9 @@ def write_replay(pid, harness, crate, features, rp):
                "role": rp["role"], "dev": rp["dev"], "release_like": rp["release_like"]},
               open(path, "w"), indent=1)
     return path
+
+
+REPLAY_CAP = int(os.environ.get("VERIF_REPLAY_CAP", "2"))
 
 
 def run_e1(pid, spec, tier, ws, out, log_dir, known):
@@ -74,7 +78,10 @@ def run_e1(pid, spec, tier, ws, out, log_dir, known):
         if meta.get("build_failed"):
             out.inconclusive.append("build of %s with spliced harnesses failed: %s" %
                                     (crate, "; ".join(e.split("\n")[0] for e in meta.get("build_errors", []))))
-        for h in lst:
+        # failing harnesses are replayed cheapest first; once REPLAY_CAP violations of this property are confirmed the
+        # remaining failing harnesses are listed but not replayed (each replay re-runs CBMC to print the test)
+        order = sorted(lst, key=lambda h: (results[h.path].status == "fail" and not h.twin, results[h.path].time_s or 0))
+        for h in order:
             r = results[h.path]
             out.evaluations += 1
             out.harness_results.append((h, r))
@@ -109,6 +116,9 @@ def run_e1(pid, spec, tier, ws, out, log_dir, known):
                 if all(f.get("unwinding") for f in r.failed):
                     continue
             # real failing checks: replay natively
+            if len(out.violations) >= REPLAY_CAP:
+                out.not_replayed.append("%s (%s)" % (h.name, "; ".join(f["description"][:50] for f in r.failed[:2])))
+                continue
             rps, why = R.replay_failing_harness(ws, crate, h.path, features, log_dir=log_dir)
             reproduced = [rp for rp in rps if rp["reproduced"]]
             if not reproduced:
@@ -229,6 +239,8 @@ def check_property(pid, tier, keep=False, reuse=None):
     for hn, role, path, msg in out.violations:
         print("VIOLATION property=%s replay=%s" % (pid, path))
         print("  harness=%s role=%s %s" % (hn, role, msg[:200]))
+    if out.not_replayed:
+        print("  also failing, not replayed (%d violation(s) of %s already confirmed): %s" % (len(out.violations), pid, ", ".join(out.not_replayed)[:600]))
     for t in out.inconclusive:
         print("INCONCLUSIVE property=%s %s" % (pid, t))
     n_h = len([1 for h, _ in out.harness_results if not h.twin])
